@@ -19,3 +19,5 @@ registry['C15'] = _lazy('c15')
 registry['C14'] = _lazy('c14')
 registry['C13'] = _lazy('c13')
 registry['C12'] = _lazy('c12')
+registry['C10'] = _lazy('c10')
+registry['C11'] = _lazy('c11')
